@@ -134,15 +134,16 @@ def json_structured(machine, doc):
         # Images.add is applied to every loaded image: a colliding pair (equal identity, other checksums) anywhere
         flat = [(v, a, i) for v in sorted(cells) for a in sorted(cells[v]) for i in range(len(cells[v][a]))]
         for n, (v, a, i) in enumerate(flat[:6]):
-            for where in ("same-cell", "other-arch", "other-variant"):
+            for where in ("same-cell", "other-arch", "other-variant", "other-arch/same-path", "other-variant/same-path"):
                 d = copy.deepcopy(doc)
                 dup = copy.deepcopy(cells[v][a][i])
                 dup["checksums"] = dict((k, str(val) + "0") for k, val in dup["checksums"].items())
-                dup["path"] = dup["path"] + ".dup"
+                if not where.endswith("same-path"):
+                    dup["path"] = dup["path"] + ".dup"
                 c = d["payload"]["images"]
                 if where == "same-cell":
                     c[v][a].append(dup)
-                elif where == "other-arch":
+                elif where.startswith("other-arch"):
                     other_arch = [x for x in ("ia64", "x86_64", "ppc64le") if x != a][0]
                     c[v].setdefault(other_arch, []).append(dup)
                 else:
